@@ -359,6 +359,11 @@ def analyse_class(rep, C, slots, before, printed, aliased, all_fields, finder, o
         outs, ex = run_class(C, slots, all_fields, other_kinds, sub_slots=('query',))
     except (Unsupported, PathLimit) as e:
         rep.undecided(f'C13.class.{cname}', 'pysym', f'{type(e).__name__}: {e}', function=fn)
+        # bounded stand-in for the class the engine could not execute: the real walker on every corpus / template statement containing the class
+        # (visit-once for every child slot, single and list-valued replacement protocols); a deviation is a violation with its input
+        w = concrete_class_check(C, slots, finder)
+        if w is not None:
+            rep.add_bounded(Bounded(f'C13.bounded.{cname}', False, w['input'], w['observed'], w.get('expected', 'walker contract'), bound='corpus + template statements containing the class'))
         return
     req = [f for f in slots if f not in aliased]
     res = {}       # obligation id -> (failure text | None, clause)
@@ -667,6 +672,46 @@ def make_finder(rep=None):
     return finder
 
 
+def concrete_class_check(C, slots, finder):
+    for f in slots:
+        for kind in ('visit', 'repl'):
+            r = finder(f'C13.{kind}.{C.__name__}.{f}', C)
+            if r and r.get('fires'):
+                return r
+    if C.__name__ == 'Select':
+        r = replay_list_replacement()
+        if r:
+            return r
+    return None
+
+
+def replay_list_replacement():
+    """select-list protocol: a target may be replaced by a list of nodes; later replacements must still land on the visited node"""
+    from mindsdb_sql import parse_sql
+    from mindsdb_sql.planner.utils import query_traversal
+    from mindsdb_sql.parser.ast import Identifier, Star
+    for sql in ('select *, a, x, b from t', 'select a, *, x from t', 'select *, x from t', 'select x, * from t'):
+        tree = parse_sql(sql, dialect='mindsdb')
+        before = [str(t) for t in tree.targets]
+
+        def cb(node, **kw):
+            if isinstance(node, Star) and kw.get('is_target'):
+                return [Identifier('c1'), Identifier('c2')]
+            if isinstance(node, Identifier) and node.parts == ['x'] and kw.get('is_target'):
+                return Identifier('y')
+        try:
+            query_traversal(tree, cb)
+        except Exception as e:
+            return {'input': sql, 'dialect': 'mindsdb', 'fires': True, 'observed': f'{type(e).__name__}: {e}', 'expected': 'replacement'}
+        want = []
+        for t in before:
+            want += ['c1', 'c2'] if t == '*' else (['y'] if t == 'x' else [t])
+        got = [str(t) for t in tree.targets]
+        if got != want:
+            return {'input': sql, 'dialect': 'mindsdb', 'fires': True, 'observed': f'visitor expands * to [c1, c2] and rewrites x to y: targets become {got}', 'expected': f'{want}'}
+    return None
+
+
 def replay_replacement(sql, dn, C, field):
     from mindsdb_sql import parse_sql
     from mindsdb_sql.planner.utils import query_traversal
@@ -745,4 +790,4 @@ def check(rep, tier):
     rep.census['node_classes'] = len(classes)
     rep.census['child_slots'] = n_slots
     rep.notes.append('Walker contract checked per node class by symbolic execution (all list lengths, all None-ness combinations, arbitrary visitor results).')
-    rep.bounded_rule = 'none (the witness finder replays failed obligations on corpus statements; it does not search for new failures)'
+    rep.bounded_rule = 'only for a class whose obligations the engine leaves undecided: the real walker on every corpus / template statement containing the class (visit-once, single and list-valued replacement)'
